@@ -49,3 +49,19 @@ package ldap
 //@   ensures [well-formed] result1 == nil ==> result0 != nil && result0.PrivateKey != nil
 //@   ensures [others] forall k string :: k != "pemkey" && k != "pemcert" ==> s.Storage.ghaskv[k] == old(s.Storage.ghaskv[k]) && s.Storage.gkv[k] == old(s.Storage.gkv[k])
 //@   modifies ghost(ghaskv), ghost(gkv), ghost(gsetfail)
+//
+// ---- per-connection session state (property C03) ----
+// session: a new service value for one connection. It shares the configuration (credentials, TLS
+// configuration, DSE, event channel) and has a login, a connection, a TLS request and a handler list of
+// its own; the shared service value is not written.
+//@ func (*ldapService).session
+//@   check frame
+//@   ensures [own] result != nil && fresh(result) && result != s
+//@   ensures [same-config] result.c == s.c && same(result.Credentials, s.Credentials) && len(result.Credentials) == len(s.Credentials) && result.tlsConfig == s.tlsConfig && result.DSE == s.DSE
+//@   modifies nothing
+//
+// setHandlers appends the request handlers (closures bound to s) to s.Handlers; nothing else of s changes.
+//@ func (*ldapService).setHandlers
+//@   check frame
+//@   ensures [appended] s.Credentials == old(s.Credentials) && s.tlsConfig == old(s.tlsConfig) && s.DSE == old(s.DSE) && s.c == old(s.c)
+//@   modifies addr(s.Server).Handlers, addr(s.Server).Handlers[:]
